@@ -14,8 +14,8 @@ pub const INFO: CheckInfo = CheckInfo {
     level: "fault_enumeration",
     rule: "fault enumeration: a set of API call histories (init/calls/end, copy mid-stream with both streams continued, reset, params, dictionary, failed init, inflateBackInit/End, several streams sharing one allocator, streams given only one of zalloc/zfree; gzopen/gzdopen -> gzbuffer -> read|write|getc|ungetc|puts|seek|flush -> close, reading a gzip / plain / empty / one-byte / two-member / garbage-trailed / truncated file, writing in modes wb / ab / wT / wb9f) is first run with a counting allocator to learn the number N of allocation requests, then re-run once for EVERY k in [0,N) with only request k failing and once for every k with all requests from k on failing. Oracle: the call during which a request failed reports Z_MEM_ERROR (a NULL gz handle / error return for gz calls); End on the faulted z_stream is safe and re-initialisation works; at the end every block has been released exactly once with the right opaque and nothing else was released (guard-paged allocator, freed blocks unmapped so any use-after-free faults; byte-balanced global allocator for the gz layer); a bystander stream created before the fault produces the same output as when run alone. distinct_nontrivial = distinct (history, fault plan, per-step status) outcomes.",
     assumptions: &["histories outside the enumerated set and simultaneous multiple independent failures other than 'all from k on' are not covered", "the gz layer uses the Rust global allocator, which the harness wraps (counting, failing, byte balance) for the duration of a history"],
-    bound_quick: "about 70 C-API histories; gz: every history of <= 2 operations over 10 read / 9 write operations x 7 file contents / 4 open modes x {by fd, by path}; every fail-at-k and fail-from-k",
-    bound_thorough: "gz histories of <= 3 operations; the same histories with more configurations and longer call lists",
+    bound_quick: "about 70 hand-written C-API histories plus every generated history of <= 2 (3) abstract operations (calls, dictionary, params, reset, copy-and-continue, copy-and-end) on 3 deflate / 3 inflate configurations; gz: every history of <= 2 operations over 10 read / 9 write operations x 7 file contents / 4 open modes x {by fd, by path}; every fail-at-k and fail-from-k",
+    bound_thorough: "gz histories of <= 4 operations; the same histories with more configurations and longer call lists",
 };
 
 #[derive(Clone, Copy, Debug, PartialEq, Eq)]
@@ -368,7 +368,7 @@ unsafe fn step_inflate(sl: &mut Slot, op: MOp, env: &MEnv) -> i32 {
     }
 }
 
-fn histories() -> Vec<(String, Vec<H>)> {
+fn histories(depth: usize) -> Vec<(String, Vec<H>)> {
     let nf = MOp::Call { flush: Z_NO_FLUSH, inn: 400, room: AMPLE };
     let sy = MOp::Call { flush: Z_SYNC_FLUSH, inn: 100, room: AMPLE };
     let tiny = MOp::Call { flush: Z_NO_FLUSH, inn: 300, room: 1 };
@@ -391,6 +391,61 @@ fn histories() -> Vec<(String, Vec<H>)> {
         v.push((format!("inflate copy, end original first wb{wb}"), vec![H::IInit(0, wb), H::I(0, ia), H::ICopy(0, 1), H::End(0), H::I(1, ib), H::End(1)]));
         v.push((format!("inflate reset wb{wb}"), vec![H::IInit(0, wb), H::I(0, ia), H::IReset(0), H::I(0, ib), H::End(0)]));
         v.push((format!("inflate + deflate sharing the allocator wb{wb}"), vec![H::IInit(0, wb), H::DInit(1, 0), H::I(0, ia), H::D(1, nf), H::ICopy(0, 2), H::End(0), H::D(1, fin), H::End(1), H::I(2, ib), H::End(2)]));
+    }
+    // generated: every sequence of <= depth abstract operations on one logical stream - calls, dictionary,
+    // parameter change, reset, "copy and carry on with the copy" (the original is ended), "copy and end the copy" -
+    // followed by a final call and End
+    #[derive(Clone, Copy)]
+    enum A {
+        Op(MOp),
+        Reset,
+        CopyGo,
+        CopyEnd,
+    }
+    let dalpha = [A::Op(nf), A::Op(sy), A::Op(tiny), A::Op(fin), A::Op(MOp::SetDict(600)), A::Op(MOp::Params(9, 0)), A::Op(MOp::Params(0, 0)), A::Reset, A::CopyGo, A::CopyEnd];
+    let ialpha = [A::Op(ia), A::Op(ib), A::Op(MOp::Call { flush: Z_NO_FLUSH, inn: 10, room: 1 }), A::Reset, A::CopyGo, A::CopyEnd];
+    for (deflate, n_cfg) in [(true, 3usize), (false, 3)] {
+        for cfg in 0..n_cfg {
+            let alpha: &[A] = if deflate { &dalpha } else { &ialpha };
+            sequences(alpha, depth, |q| {
+                if q.is_empty() {
+                    return;
+                }
+                let mut h = vec![if deflate { H::DInit(0, [0usize, 1, 2][cfg]) } else { H::IInit(0, [15, -15, 31][cfg]) }];
+                let mut cur = 0usize;
+                let mut next = 1usize;
+                let mut tag = String::new();
+                for a in q {
+                    match *a {
+                        A::Op(m) => {
+                            h.push(if deflate { H::D(cur, m) } else { H::I(cur, m) });
+                            tag.push_str(&m.tag());
+                        }
+                        A::Reset => {
+                            h.push(if deflate { H::DReset(cur) } else { H::IReset(cur) });
+                            tag.push_str("reset");
+                        }
+                        A::CopyGo => {
+                            h.push(if deflate { H::DCopy(cur, next) } else { H::ICopy(cur, next) });
+                            h.push(H::End(cur));
+                            cur = next;
+                            next += 1;
+                            tag.push_str("copy-go");
+                        }
+                        A::CopyEnd => {
+                            h.push(if deflate { H::DCopy(cur, next) } else { H::ICopy(cur, next) });
+                            h.push(H::End(next));
+                            next += 1;
+                            tag.push_str("copy-end");
+                        }
+                    }
+                    tag.push(';');
+                }
+                h.push(if deflate { H::D(cur, fin) } else { H::I(cur, ib) });
+                h.push(H::End(cur));
+                v.push((format!("generated {} cfg{cfg} [{tag}]", if deflate { "deflate" } else { "inflate" }), h));
+            });
+        }
     }
     for wbits in [8, 15] {
         v.push((format!("inflateBackInit/End wbits{wbits}"), vec![H::BInit(0, wbits), H::End(0)]));
@@ -530,7 +585,7 @@ pub fn run(ctx: &mut Ctx) {
     let cfg_gz = DCfg { wrap: Wrap::Gzip, ..cfg };
     let packed_gz = run_deflate::<Ng>(&cfg_gz, &plain, &DSched::one_shot(), &denv, &DExtra::default(), None).expect("ref").out;
     drop(denv);
-    for (name, hist) in histories() {
+    for (name, hist) in histories(if ctx.quick() { 2 } else { 3 }) {
         let packed: &[u8] = if name.contains("wb-15") {
             &packed_raw
         } else if name.contains("wb31") {
@@ -664,7 +719,7 @@ pub fn run(ctx: &mut Ctx) {
     let payload = text(7, 5000);
     let mut buf = vec![0u8; 8192];
     // every history of up to 2 (thorough: 3) operations over the read / write alphabets
-    let depth = if ctx.quick() { 2 } else { 3 };
+    let depth = if ctx.quick() { 2 } else { 4 };
     let ralpha = [G::Buffer(8), G::Read(1), G::Read(300), G::Read(5000), G::Getc, G::Ungetc, G::Gets, G::Seek(500), G::Rewind, G::Direct];
     let walpha = [G::Buffer(8), G::Write(1), G::Write(5000), G::Putc, G::Puts, G::Flush, G::Seek(100), G::SetParams, G::Direct];
     let mut read_hist: Vec<(String, Vec<G>)> = vec![("r".into(), vec![])];
